@@ -19,8 +19,9 @@ theorem lineAs_sound {s : Bool} {b : Bytes} {idx : RespIdx} {n : Nat} {t : UInt8
     {mk : DataIndex → RespIdx} {mkv : Bytes → Resp}
     (hmk : ∀ d a, toRespVec d (mk a) = (sliceGet d a.1 a.2).map mkv)
     (hacc : ∀ p e, (∃ ch, e = t :: (p ++ [ch, LF]) ∧ LF ∉ p ∧ TermOk s ch) → Accepts s (mkv p) e)
+    (hnest : ∀ d p, NestOk d (mkv p))
     (h : parseLineAs mk s b = .ok (idx, n)) :
-    ∃ v, toRespVec (b.take n) idx = some v ∧ Accepts s v (t :: b.take n) := by
+    ∃ v, toRespVec (b.take n) idx = some v ∧ Accepts s v (t :: b.take n) ∧ ∀ d, NestOk d v := by
   unfold parseLineAs at h
   cases hl : parseLine s b with
   | error e => simp [hl] at h
@@ -31,13 +32,13 @@ theorem lineAs_sound {s : Bool} {b : Bytes} {idx : RespIdx} {n : Nat} {t : UInt8
     subst h1 h2
     obtain ⟨h0, hn, hle, hsl, ch, hd, hnl, hterm⟩ := line_sound hl
     subst h0
-    refine ⟨mkv (b.take e), ?_, ?_⟩
+    refine ⟨mkv (b.take e), ?_, ?_, fun d => hnest d _⟩
     · rw [hmk]; simp only; rw [hsl]; rfl
     · apply hacc
       exact ⟨ch, by rw [hd], hnl, hterm⟩
 
 theorem bulk_sound {s : Bool} {b : Bytes} {idx : RespIdx} {n : Nat} (h : parseBulkStr s b = .ok (idx, n)) :
-    ∃ v, toRespVec (b.take n) idx = some v ∧ Accepts s v (tBulk :: b.take n) := by
+    ∃ v, toRespVec (b.take n) idx = some v ∧ Accepts s v (tBulk :: b.take n) ∧ ∀ d, NestOk d v := by
   unfold parseBulkStr at h
   cases hl : parseLen s b with
   | error e => simp [hl] at h
@@ -50,7 +51,7 @@ theorem bulk_sound {s : Bool} {b : Bytes} {idx : RespIdx} {n : Nat} (h : parseBu
     · simp only [hneg, if_true, Except.ok.injEq, Prod.mk.injEq] at h
       obtain ⟨h1, h2⟩ := h
       subst h1 h2
-      refine ⟨.bulkNil, by simp [toRespVec, RespT.mapOpt], ?_⟩
+      refine ⟨.bulkNil, by simp [toRespVec, RespT.mapOpt], ?_, by intro d; simp [NestOk]⟩
       simp only [Accepts]
       exact ⟨b.take (c - 2), ch, len, by rw [hd], hbtoi, hneg, hterm⟩
     · simp only [hneg, if_false] at h
@@ -66,7 +67,7 @@ theorem bulk_sound {s : Bool} {b : Bytes} {idx : RespIdx} {n : Nat} (h : parseBu
           have hk : ((len.toNat : Nat) : Int) = len := Int.toNat_of_nonneg (by omega)
           generalize len.toNat = k at *
           have hpl : ((b.drop c).take k).length = k := by simp; omega
-          refine ⟨.bulk ((b.drop c).take k), ?_, ?_⟩
+          refine ⟨.bulk ((b.drop c).take k), ?_, ?_, by intro d; simp [NestOk]⟩
           · simp only [toRespVec, RespT.mapOpt, sliceGet]
             have hcond : c ≤ c + k ∧ c + k ≤ (b.take (c + k + 2)).length := by simp; omega
             simp only [hcond, and_self, if_true, Option.map_some, Option.some.injEq, RespT.bulk.injEq]
@@ -88,7 +89,7 @@ theorem bulk_sound {s : Bool} {b : Bytes} {idx : RespIdx} {n : Nat} (h : parseBu
 
 theorem leaf_sound {s : Bool} {p : UInt8} {b : Bytes} {idx : RespIdx} {n : Nat}
     (h : parseLeaf s p b = some (.ok (idx, n))) :
-    ∃ v, toRespVec (b.take n) idx = some v ∧ Accepts s v (p :: b.take n) := by
+    ∃ v, toRespVec (b.take n) idx = some v ∧ Accepts s v (p :: b.take n) ∧ ∀ d, NestOk d v := by
   unfold parseLeaf at h
   split at h
   · rename_i hp; subst hp
@@ -98,22 +99,22 @@ theorem leaf_sound {s : Bool} {p : UInt8} {b : Bytes} {idx : RespIdx} {n : Nat}
     · rename_i hp; subst hp
       simp only [Option.some.injEq] at h
       exact lineAs_sound (mkv := .simple) (by intro d a; simp [toRespVec, RespT.mapOpt])
-        (by intro p e hh; simpa [Accepts] using hh) h
+        (by intro p e hh; simpa [Accepts] using hh) (by intro d p; simp [NestOk]) h
     · split at h
       · rename_i hp; subst hp
         simp only [Option.some.injEq] at h
         exact lineAs_sound (mkv := .integer) (by intro d a; simp [toRespVec, RespT.mapOpt])
-          (by intro p e hh; simpa [Accepts] using hh) h
+          (by intro p e hh; simpa [Accepts] using hh) (by intro d p; simp [NestOk]) h
       · split at h
         · rename_i hp; subst hp
           simp only [Option.some.injEq] at h
           exact lineAs_sound (mkv := .error) (by intro d a; simp [toRespVec, RespT.mapOpt])
-            (by intro p e hh; simpa [Accepts] using hh) h
+            (by intro p e hh; simpa [Accepts] using hh) (by intro d p; simp [NestOk]) h
         · simp at h
 
 theorem arrayHeader_sound {s : Bool} {b : Bytes} :
     (∀ c, parseArrayHeader s b = .nil c → Accepts s .arrNil (tArr :: b.take c)) ∧
-    (∀ k c, parseArrayHeader s b = .elems k c → 2 ≤ c ∧ c ≤ b.length ∧ capacityOverflow k = false ∧
+    (∀ k c, parseArrayHeader s b = .elems k c → 2 ≤ c ∧ c ≤ b.length ∧ reservePanics k = false ∧
       ∃ ch, b.take c = b.take (c - 2) ++ [ch, LF] ∧ btoiI64 (b.take (c - 2)) = some (k : Int) ∧ TermOk s ch) := by
   unfold parseArrayHeader
   cases hl : parseLen s b with
@@ -129,7 +130,7 @@ theorem arrayHeader_sound {s : Bool} {b : Bytes} :
       simp only [Accepts]
       exact ⟨b.take (c' - 2), ch, len, by rw [hd], hbtoi, hneg, hterm⟩
     · simp only [hneg, if_false]
-      by_cases hcap : capacityOverflow len.toNat = true
+      by_cases hcap : reservePanics len.toNat = true
       · simp [hcap]
       · simp only [hcap, Bool.false_eq_true, if_false, reduceCtorEq, false_implies, implies_true, true_and,
           ArrHdr.elems.injEq, and_imp]
@@ -139,27 +140,27 @@ theorem arrayHeader_sound {s : Bool} {b : Bytes} :
 
 /-- soundness of the recursive parser -/
 theorem parse_sound (s : Bool) : ∀ f : Nat,
-    (∀ b idx n, parseResp s f b = .ok (idx, n) →
-      ∃ v, toRespVec (b.take n) idx = some v ∧ Accepts s v (b.take n)) ∧
-    (∀ bufLen rest k c idxs total, parseElems s f bufLen rest k c = .ok (idxs, total) →
-      ∃ vs, AcceptsList s vs (rest.take (total - c)) ∧ vs.length = k ∧
+    (∀ d b idx n, parseResp s f d b = .ok (idx, n) →
+      ∃ v, toRespVec (b.take n) idx = some v ∧ Accepts s v (b.take n) ∧ NestOk d v) ∧
+    (∀ d bufLen rest k c idxs total, parseElems s f d bufLen rest k c = .ok (idxs, total) →
+      ∃ vs, AcceptsList s vs (rest.take (total - c)) ∧ vs.length = k ∧ NestOkList d vs ∧
         ∀ D y, c ≤ D.length → D.drop c = rest.take (total - c) ++ y → toVecList D idxs = some vs) := by
   intro f
   induction f with
   | zero =>
     constructor
-    · intro b idx n h; simp [parseResp] at h
-    · intro bufLen rest k c idxs total h
+    · intro d b idx n h; simp [parseResp] at h
+    · intro d bufLen rest k c idxs total h
       cases k with
       | zero =>
         simp only [parseElems, Except.ok.injEq, Prod.mk.injEq] at h
         obtain ⟨h1, h2⟩ := h; subst h1 h2
-        exact ⟨[], by simp [AcceptsList], rfl, by intro D y _ _; simp [toVecList, RespT.mapOptList]⟩
+        exact ⟨[], by simp [AcceptsList], rfl, by simp [NestOkList], by intro D y _ _; simp [toVecList, RespT.mapOptList]⟩
       | succ k => simp [parseElems] at h
   | succ f ih =>
     obtain ⟨ihR, ihE⟩ := ih
     constructor
-    · intro b idx n h
+    · intro d b idx n h
       cases b with
       | nil => simp [parseResp] at h
       | cons p next =>
@@ -169,8 +170,8 @@ theorem parse_sound (s : Bool) : ∀ f : Nat,
           simp only [hleaf] at h
           obtain ⟨v', n', hr, hv, hn⟩ := shift1_ok h
           subst hr hv hn
-          obtain ⟨v, h1, h2⟩ := leaf_sound hleaf
-          refine ⟨v, ?_, ?_⟩
+          obtain ⟨v, h1, h2, h3⟩ := leaf_sound hleaf
+          refine ⟨v, ?_, ?_, h3 d⟩
           · rw [toRespVec_advance _ _ _ (by simp; omega)]
             simpa [Nat.add_comm 1 n'] using h1
           · simpa [Nat.add_comm 1 n'] using h2
@@ -178,6 +179,10 @@ theorem parse_sound (s : Bool) : ∀ f : Nat,
           simp only [hleaf] at h
           split at h
           · rename_i hp; subst hp
+            by_cases hnest : nestingExceeded d = true
+            · rw [if_pos hnest] at h; simp at h
+            rw [if_neg hnest] at h
+            have hallow : nestAllowed d := by simpa [nestAllowed] using hnest
             obtain ⟨hnil, helems⟩ := arrayHeader_sound (s := s) (b := next)
             cases hh : parseArrayHeader s next with
             | err e => simp [hh] at h
@@ -187,12 +192,12 @@ theorem parse_sound (s : Bool) : ∀ f : Nat,
               simp only [Except.ok.injEq, Prod.mk.injEq] at hr
               obtain ⟨hr1, hr2⟩ := hr
               subst hr1 hr2 hv hn
-              refine ⟨.arrNil, by simp [toRespVec, advance, RespT.map, RespT.mapOpt], ?_⟩
+              refine ⟨.arrNil, by simp [toRespVec, advance, RespT.map, RespT.mapOpt], ?_, by simpa [NestOk] using hallow⟩
               simpa [Nat.add_comm 1 c] using hnil c hh
             | elems k c =>
               simp only [hh] at h
               obtain ⟨hc2, hcle, hcap, ch, hd, hbtoi, hterm⟩ := helems k c hh
-              cases he : parseElems s f next.length (next.drop c) k c with
+              cases he : parseElems s f (d + 1) next.length (next.drop c) k c with
               | error e => simp [he] at h
               | ok pr =>
                 obtain ⟨arr, total⟩ := pr
@@ -203,13 +208,13 @@ theorem parse_sound (s : Bool) : ∀ f : Nat,
                 subst hr1 hr2 hv hn
                 obtain ⟨hb1, hb2, _⟩ := parseElems_bounds he
                 simp only [List.length_drop] at hb2
-                obtain ⟨vs, hacc, hlen, hvec⟩ := ihE _ _ _ _ _ _ he
+                obtain ⟨vs, hacc, hlen, hnl, hvec⟩ := ihE _ _ _ _ _ _ _ he
                 have htake : (tArr :: next).take (1 + total) = tArr :: next.take total := by
                   rw [Nat.add_comm]; rfl
                 have hsplit : next.take total = next.take c ++ (next.drop c).take (total - c) := by
                   have : total = c + (total - c) := by omega
                   rw [this, List.take_add]; congr 3 <;> omega
-                refine ⟨.arr vs, ?_, ?_⟩
+                refine ⟨.arr vs, ?_, ?_, by simp only [NestOk]; exact ⟨hallow, hnl⟩⟩
                 · rw [toRespVec_advance _ _ _ (by simp; omega), htake]
                   simp only [List.drop_succ_cons, List.drop_zero]
                   rw [toRespVec_arr, hvec (next.take total) [] (by simp; omega) (by
@@ -223,23 +228,23 @@ theorem parse_sound (s : Bool) : ∀ f : Nat,
                   · rw [hlen]; exact hcap
                   · exact hacc
           · simp at h
-    · intro bufLen rest k c idxs total h
+    · intro d bufLen rest k c idxs total h
       cases k with
       | zero =>
         simp only [parseElems, Except.ok.injEq, Prod.mk.injEq] at h
         obtain ⟨h1, h2⟩ := h; subst h1 h2
-        exact ⟨[], by simp [AcceptsList], rfl, by intro D y _ _; simp [toVecList, RespT.mapOptList]⟩
+        exact ⟨[], by simp [AcceptsList], rfl, by simp [NestOkList], by intro D y _ _; simp [toVecList, RespT.mapOptList]⟩
       | succ k =>
         simp only [parseElems] at h
         split at h
         · simp at h
-        · cases hp : parseResp s f rest with
+        · cases hp : parseResp s f d rest with
           | error e => simp [hp] at h
           | ok pr =>
             obtain ⟨v, ec⟩ := pr
             simp only [hp] at h
             obtain ⟨hec1, hec2⟩ := parseResp_bounds hp
-            cases he : parseElems s f bufLen (rest.drop ec) k (c + ec) with
+            cases he : parseElems s f d bufLen (rest.drop ec) k (c + ec) with
             | error e => simp [he] at h
             | ok pr2 =>
               obtain ⟨vs, t⟩ := pr2
@@ -248,12 +253,12 @@ theorem parse_sound (s : Bool) : ∀ f : Nat,
               subst h1 h2
               obtain ⟨hb1, hb2, _⟩ := parseElems_bounds he
               simp only [List.length_drop] at hb2
-              obtain ⟨v1, hv1, ha1⟩ := ihR _ _ _ hp
-              obtain ⟨vs1, has, hlen, hvs⟩ := ihE _ _ _ _ _ _ he
+              obtain ⟨v1, hv1, ha1, hn1⟩ := ihR _ _ _ _ hp
+              obtain ⟨vs1, has, hlen, hns, hvs⟩ := ihE _ _ _ _ _ _ _ he
               have hsplit : rest.take (t - c) = rest.take ec ++ (rest.drop ec).take (t - (c + ec)) := by
                 have : t - c = ec + (t - (c + ec)) := by omega
                 rw [this, List.take_add]
-              refine ⟨v1 :: vs1, ?_, by simp [hlen], ?_⟩
+              refine ⟨v1 :: vs1, ?_, by simp [hlen], by simp only [NestOkList]; exact ⟨hn1, hns⟩, ?_⟩
               · simp only [AcceptsList]
                 exact ⟨_, _, hsplit, ha1, has⟩
               · intro D y hcD hD
@@ -267,7 +272,7 @@ theorem parse_sound (s : Bool) : ∀ f : Nat,
                     List.drop_left' (by simp; omega)])]
 
 theorem parse_ok_sound {s : Bool} {b : Bytes} {idx : RespIdx} {n : Nat} (h : parse s b = .ok (idx, n)) :
-    ∃ v, toRespVec (b.take n) idx = some v ∧ Accepts s v (b.take n) :=
-  (parse_sound s _).1 _ _ _ h
+    ∃ v, toRespVec (b.take n) idx = some v ∧ Accepts s v (b.take n) ∧ NestOk 0 v :=
+  (parse_sound s _).1 _ _ _ _ h
 
 end Um.Resp
